@@ -1305,6 +1305,29 @@ fn wake_send_waiters<T>(waiters: &mut LinkedList<SendWaitQueueEntry<T>>) {''',
             // violated, e.g. the WaitQueueEntry got moved after the initial poll.
             panic!("Future could not be removed from wait queue");''',
      'expect': {'C01': ['C01.I1']}},
+    # ---------------------------------------------------------------- fair hand-over invariant (seed C04c)
+    {'name': 'mutex-cancel-of-waiting-future-notifies-head', 'file': 'src/sync/mutex.rs',
+     'old': '                unsafe { self.force_remove_waiter(wait_node) };\n                wait_node.state = PollState::Done;\n                None\n            }\n            PollState::New | PollState::Done => None,',
+     'new': '                unsafe { self.force_remove_waiter(wait_node) };\n                wait_node.state = PollState::Done;\n                self.return_last_waiter()\n            }\n            PollState::New | PollState::Done => None,',
+     'expect': {'C01': ['C01.P.fair']}},
+    {'name': 'mutex-fair-notified-head-requeues-behind', 'edits': [
+        {'file': 'src/sync/mutex.rs', 'old': '                unsafe { self.force_remove_waiter(wait_node) };\n                wait_node.state = PollState::Done;\n                None\n            }\n            PollState::New | PollState::Done => None,', 'new': '                unsafe { self.force_remove_waiter(wait_node) };\n                wait_node.state = PollState::Done;\n                self.return_last_waiter()\n            }\n            PollState::New | PollState::Done => None,'},
+        {'file': 'src/sync/mutex.rs', 'old': '                if !self.is_locked {\n                    if self.is_fair {\n                        // In a fair Mutex, the WaitQueueEntry is kept in the\n                        // linked list and must be removed here\n                        // Safety: Due to the state, we know that the node must be part\n                        // of the waiter list\n                        self.force_remove_waiter(wait_node);\n                    }\n                    self.is_locked = true;\n                    wait_node.state = PollState::Done;\n                    Poll::Ready(())\n                } else {\n                    // Fair mutexes should always be able to acquire the lock\n                    // after they had been notified\n                    debug_assert!(!self.is_fair);', 'new': '                if self.is_fair {\n                    self.force_remove_waiter(wait_node);\n                }\n                if !self.is_locked {\n                    self.is_locked = true;\n                    wait_node.state = PollState::Done;\n                    Poll::Ready(())\n                } else {'}],
+     'expect': {'C04': ['C04.R4']}},
+    {'name': 'sem-fair-waiting-repoll-moves-to-back', 'file': 'src/sync/semaphore.rs',
+     'old': """                    // In this case we need to update it.
+                    update_waker_ref(&mut wait_node.task, cx);
+                    Poll::Pending
+                } else {
+                    // For throughput improvement purposes, check immediately""",
+     'new': """                    // In this case we need to update it.
+                    update_waker_ref(&mut wait_node.task, cx);
+                    self.force_remove_waiter(wait_node);
+                    self.waiters.add_front(wait_node);
+                    Poll::Pending
+                } else {
+                    // For throughput improvement purposes, check immediately""",
+     'expect': {'C07': ['C07.R5']}},
 ]
 
 ALLP = ['C01','C02','C03','C04','C05','C06','C07','C08','C09','C10','C11','C12','C13','C14','C15','C17','C18','C19','C20']
@@ -1479,6 +1502,8 @@ impl<'a, MutexType, T> FusedFuture for ChannelReceiveFuture<'a, MutexType, T> {'
                 update_waker_ref(&mut wait_node.task, cx);
                 Poll::Pending
             }'''}]},
+    {'name': 'benign-mutex-notified-arm-handles-locked-gracefully', 'props': ALLP, 'edits': [
+        {'file': 'src/sync/mutex.rs', 'old': '                if !self.is_locked {\n                    if self.is_fair {\n                        // In a fair Mutex, the WaitQueueEntry is kept in the\n                        // linked list and must be removed here\n                        // Safety: Due to the state, we know that the node must be part\n                        // of the waiter list\n                        self.force_remove_waiter(wait_node);\n                    }\n                    self.is_locked = true;\n                    wait_node.state = PollState::Done;\n                    Poll::Ready(())\n                } else {\n                    // Fair mutexes should always be able to acquire the lock\n                    // after they had been notified\n                    debug_assert!(!self.is_fair);', 'new': '                if self.is_fair {\n                    self.force_remove_waiter(wait_node);\n                }\n                if !self.is_locked {\n                    self.is_locked = true;\n                    wait_node.state = PollState::Done;\n                    Poll::Ready(())\n                } else {'}]},
     {'name': 'benign-unrelated-additions', 'props': ALLP, 'edits': [
         {'file': 'src/sync/semaphore.rs',
          'old': '''    /// Returns the amount of permits that are available on the semaphore
